@@ -1654,6 +1654,52 @@ func c05DoneBeforeFinalWrites(c *core.Ctx, fns []*ssa.Function) {
 			}
 		}
 		c.Check(ok, key, fn.Pos(), "the completion CancelFunc is called before every blocking frame write of this function", "a final frame write can block before the completion signal is given: a client blocked in SendMsg (full request buffer) and a server blocked writing its final frames deadlock")
+		// … and the signal does not itself wait for the mutex those writes are made under: another goroutine
+		// parked in a frame write holds it for as long as the peer does not receive
+		held := map[string]bool{}
+		var acquires []ssa.Instruction
+		core.Instrs(fn, func(in ssa.Instruction) {
+			cc := core.CallOf(in)
+			if cc == nil {
+				return
+			}
+			if _, isCall := in.(*ssa.Call); !isCall {
+				return
+			}
+			k, acq, _, _ := core.LockOp(cc)
+			if k == "" || !acq {
+				return
+			}
+			acquires = append(acquires, in)
+			v := core.Walk(core.After(in), func(x ssa.Instruction) bool {
+				if xc := core.CallOf(x); xc != nil {
+					if _, isCall := x.(*ssa.Call); isCall {
+						if k2, _, rel, _ := core.LockOp(xc); rel && k2 == k {
+							return true
+						}
+					}
+				}
+				return false
+			}, nil)
+			for _, sd := range sends {
+				if v[sd.instr] {
+					held[k] = true
+				}
+			}
+		})
+		waits := ""
+		for _, a := range acquires {
+			k, _, _, _ := core.LockOp(core.CallOf(a))
+			if !held[k] {
+				continue
+			}
+			for _, cc := range cancelCalls {
+				if cc != nil && core.Reachable(core.After(a), cc) {
+					waits = k
+				}
+			}
+		}
+		c.Check(waits == "", core.FuncName(fn)+":done-signal-takes-no-write-lock", fn.Pos(), "the completion CancelFunc is called before this function acquires the mutex its frame writes are made under", "the completion signal is given only after acquiring "+waits+", the mutex held across blocking frame writes: while another goroutine is parked in a frame write under it, the peer's blocked sender is not released when this side finishes")
 	}
 	if n == 0 {
 		c.Fail("inprocgrpc:finish", token.NoPos, "ANCHOR-MISSING: no function found that both signals completion through a CancelFunc field and writes final frames")
